@@ -5,3 +5,4 @@ import DefconModel.Drivers.Kern
 import DefconModel.Drivers.NameSort
 import DefconModel.Drivers.Persist
 import DefconModel.Drivers.Classes
+import DefconModel.Drivers.Ident
